@@ -15,10 +15,14 @@ structure Flat where
   isObj : Bool         -- the entry stands for an object (its fields follow)
 deriving DecidableEq, Repr
 
+/-- the value under which a `zap.Namespace` field shows in the flat view -/
+def nsTag : Nat := 99
+
 mutual
 def flat3Node (pre : Bytes) : Node → List Flat
   | .leaf k v => [⟨pre, k, v, false⟩]
   | .obj k kids => ⟨pre, k, .other objTag, true⟩ :: flat3List (pre ++ k ++ pathSep) kids
+  | .ns k => [⟨pre, k, .other nsTag, true⟩]     -- a structural entry; `pre` of the later fields is the encoder's, unchanged
 def flat3List (pre : Bytes) : List Node → List Flat
   | [] => []
   | n :: r => flat3Node pre n ++ flat3List pre r
@@ -40,6 +44,7 @@ mutual
 def noObjFilterNode (cfg : FCfg) (pre : Bytes) : Node → Bool
   | .leaf _ _ => true
   | .obj k kids => (lookupF cfg (pre ++ k)).isNone && noObjFilterList cfg (pre ++ k ++ pathSep) kids
+  | .ns _ => true
 def noObjFilterList (cfg : FCfg) (pre : Bytes) : List Node → Bool
   | [] => true
   | n :: r => noObjFilterNode cfg pre n && noObjFilterList cfg pre r
@@ -78,6 +83,7 @@ theorem flat3_encNode (o : Oracles) (cfg : FCfg) (pre : Bytes) : ∀ (n : Node),
     have ih := flat3_encList o cfg (pre ++ k ++ pathSep) kids h.2
     simp only [ih]
     simp
+  | .ns k, _ => by simp [encNode, flat3Node, flat3List, specStep]
 theorem flat3_encList (o : Oracles) (cfg : FCfg) (pre : Bytes) : ∀ (ns : List Node), noObjFilterList cfg pre ns = true →
     flat3List pre (encList o cfg pre ns) = (flat3List pre ns).flatMap (specStep o cfg)
   | [], _ => by simp [encList, flat3List]
@@ -101,10 +107,10 @@ theorem filter_encoder_is_per_path_filtering (o : Oracles) (cfg : FCfg) (fields 
   flat3_encList o cfg [] fields h
 
 /-- how an emitted field `e'` relates to the input field `e` it stems from: untouched when no filter is
-    configured on `e`'s ORIGINAL full path, otherwise the result of exactly that filter (for an object that
+    configured on `e`'s full key path (or `e` is a namespace marker), otherwise the result of exactly that filter (for an object that
     the filter kept: the object under the key the filter gave it) -/
 def StemsFrom (o : Oracles) (cfg : FCfg) (e e' : Flat) : Prop :=
-  (lookupF cfg (e.pre ++ e.key) = none ∧ e'.key = e.key ∧ e'.val = e.val ∧ e'.isObj = e.isObj) ∨
+  ((lookupF cfg (e.pre ++ e.key) = none ∨ e.val = .other nsTag) ∧ e'.key = e.key ∧ e'.val = e.val ∧ e'.isObj = e.isObj) ∨
   (∃ f, lookupF cfg (e.pre ++ e.key) = some f ∧ e'.key = (applyFilter o f ⟨e.key, e.val⟩).key ∧
         ((e.isObj = true ∧ e'.isObj = true) ∨ e'.val = (applyFilter o f ⟨e.key, e.val⟩).val))
 
@@ -126,7 +132,7 @@ theorem stems_encNode (o : Oracles) (cfg : FCfg) : ∀ (pre pre' : Bytes) (n : N
     | none =>
       simp [hl, flat3List, flat3Node] at he'
       subst he'
-      exact ⟨⟨pre, k, v, false⟩, by simp [flat3Node], Or.inl ⟨hl, rfl, rfl, rfl⟩⟩
+      exact ⟨⟨pre, k, v, false⟩, by simp [flat3Node], Or.inl ⟨Or.inl hl, rfl, rfl, rfl⟩⟩
     | some f =>
       simp only [hl] at he'
       exact ⟨⟨pre, k, v, false⟩, by simp [flat3Node], stems_emitLeaf o cfg pre pre' k v f hl e' he'⟩
@@ -137,7 +143,7 @@ theorem stems_encNode (o : Oracles) (cfg : FCfg) : ∀ (pre pre' : Bytes) (n : N
     | none =>
       simp only [hl, flat3List, flat3Node, List.append_nil, List.mem_cons] at he'
       rcases he' with rfl | he'
-      · exact ⟨⟨pre, k, .other objTag, true⟩, by simp [flat3Node], Or.inl ⟨hl, rfl, rfl, rfl⟩⟩
+      · exact ⟨⟨pre, k, .other objTag, true⟩, by simp [flat3Node], Or.inl ⟨Or.inl hl, rfl, rfl, rfl⟩⟩
       · rcases stems_encList o cfg (pre ++ k ++ pathSep) (pre' ++ k ++ pathSep) kids e' he' with ⟨e, he, hs⟩
         exact ⟨e, by simpa [flat3Node, List.append_assoc] using Or.inr he, hs⟩
     | some f =>
@@ -159,6 +165,11 @@ theorem stems_encNode (o : Oracles) (cfg : FCfg) : ∀ (pre pre' : Bytes) (n : N
         simp [hv, flat3List, flat3Node] at he'
         subst he'
         exact ⟨⟨pre, k, .other objTag, true⟩, by simp [flat3Node], Or.inr ⟨f, hl, rfl, Or.inr hv.symm⟩⟩
+  | pre, pre', .ns k => by
+    intro e' he'
+    simp [encNode, flat3List, flat3Node] at he'
+    subst he'
+    exact ⟨⟨pre, k, .other nsTag, true⟩, by simp [flat3Node], Or.inl ⟨Or.inr rfl, rfl, rfl, rfl⟩⟩
 theorem stems_encList (o : Oracles) (cfg : FCfg) : ∀ (pre pre' : Bytes) (ns : List Node),
     ∀ e' ∈ flat3List pre' (encList o cfg pre ns), ∃ e ∈ flat3List pre ns, StemsFrom o cfg e e'
   | _, _, [] => by simp [encList, flat3List]
@@ -188,6 +199,7 @@ theorem encNode_no_config (o : Oracles) (pre : Bytes) : ∀ n, encNode o [] pre 
   | .obj k kids => by
     have ih := encList_no_config o (pre ++ k ++ pathSep) kids
     simp only [encNode, lookupF, List.find?_nil, Option.map_none, ih]
+  | .ns k => by simp [encNode]
 theorem encList_no_config (o : Oracles) (pre : Bytes) : ∀ ns, encList o [] pre ns = ns
   | [] => by simp [encList]
   | n :: r => by simp [encList, encNode_no_config o pre n, encList_no_config o pre r]
@@ -230,6 +242,88 @@ theorem fenc_object_filter_old_code_fails :
    [(str "request", .rename (str "rq")), (str "request>uri", .delete)],
    [.obj (str "request") [.leaf (str "uri") (.str (str "SECRET"))]], str "SECRET", by decide⟩
 
+/-! ### namespaces: the path a field is SHOWN under vs. the key path it is looked up under -/
+
+/-- what a field adds to the visible path of the LATER fields of its level -/
+def nsExt : Node → Bytes
+  | .ns k => k ++ pathSep
+  | _ => []
+
+mutual
+/-- the leaves of an entry with the path they are nested under in the written entry — what the documented
+    `outer>inner` addressing of `fields` refers to: objects AND open namespaces are levels -/
+def visNode (vis : Bytes) : Node → List (Bytes × FVal)
+  | .leaf k v => [(vis ++ k, v)]
+  | .obj k kids => visList (vis ++ k ++ pathSep) kids
+  | .ns _ => []
+def visList (vis : Bytes) : List Node → List (Bytes × FVal)
+  | [] => []
+  | n :: r => visNode vis n ++ visList (vis ++ nsExt n) r
+end
+
+mutual
+/-- the entry contains no `zap.Namespace` field (explicit, decidable exclusion) -/
+def noNsNode : Node → Bool
+  | .leaf _ _ => true
+  | .obj _ kids => noNsList kids
+  | .ns _ => false
+def noNsList : List Node → Bool
+  | [] => true
+  | n :: r => noNsNode n && noNsList r
+end
+
+/-- the leaf entries of the flat view with their key path -/
+def keyPathLeaves (l : List Flat) : List (Bytes × FVal) :=
+  l.filterMap fun e => if e.isObj then none else some (e.pre ++ e.key, e.val)
+
+theorem keyPathLeaves_append (a b : List Flat) : keyPathLeaves (a ++ b) = keyPathLeaves a ++ keyPathLeaves b := by
+  simp [keyPathLeaves]
+
+mutual
+theorem vis_eq_key_path_node (pre : Bytes) : ∀ (n : Node), noNsNode n = true →
+    visNode pre n = keyPathLeaves (flat3Node pre n)
+  | .leaf k v, _ => by simp [visNode, flat3Node, keyPathLeaves]
+  | .obj k kids, h => by
+    simp only [noNsNode] at h
+    simp only [visNode, flat3Node]
+    rw [vis_eq_key_path_list (pre ++ k ++ pathSep) kids h]
+    simp [keyPathLeaves]
+  | .ns _, h => by simp [noNsNode] at h
+theorem vis_eq_key_path_list (pre : Bytes) : ∀ (ns : List Node), noNsList ns = true →
+    visList pre ns = keyPathLeaves (flat3List pre ns)
+  | [], _ => by simp [visList, flat3List, keyPathLeaves]
+  | n :: r, h => by
+    simp only [noNsList, Bool.and_eq_true] at h
+    have hext : nsExt n = [] := by
+      cases n with
+      | ns k => simp [noNsNode] at h
+      | leaf k v => rfl
+      | obj k kids => rfl
+    simp only [visList, flat3List, keyPathLeaves_append, hext, List.append_nil]
+    rw [vis_eq_key_path_node pre n h.1, vis_eq_key_path_list pre r h.2]
+end
+
+/-- **without namespaces the key path is the visible path** (`…_partial`): for an entry that contains no
+    `zap.Namespace` field, the path under which the encoder looks a field up (and about which
+    `fenc_every_field_stems_from_its_path_filter` speaks) is the path under which the field is shown. -/
+theorem fenc_key_path_is_visible_path_partial (fields : List Node) (h : noNsList fields = true) :
+    visList [] fields = keyPathLeaves (flat3List [] fields) :=
+  vis_eq_key_path_list [] fields h
+
+/-- FULL STATEMENT (false on the unchanged tree): the same without the exclusion — a filter configured for the
+    path a field is shown under is the filter the field meets.  Refuted: `OpenNamespace` is only forwarded to
+    the wrapped encoder, the key path is not extended; the error log of a failed error route is
+    `{…, "first_error": {"msg": …}}`, yet `first_error>msg → delete` never runs and the message is logged. -/
+theorem fenc_namespace_full_fails :
+    ∃ (o : Oracles) (cfg : FCfg) (fields : List Node) (secret : Bytes),
+      visList [] fields = [(str "first_error>msg", .str secret)] ∧
+      lookupF cfg (str "first_error>msg") = some .delete ∧ noNsList fields = false ∧
+      keyPathLeaves (flat3List [] fields) = [(str "msg", .str secret)] ∧
+      listStrings (filterEncode o cfg fields) = [str "first_error", str "msg", secret] :=
+  ⟨⟨id, id, fun _ => none, fun _ => none, fun _ => [], fun _ => none, fun _ => [], fun _ => [], fun _ => []⟩,
+   [(str "first_error>msg", .delete)], [.ns (str "first_error"), .leaf (str "msg") (.str (str "SECRET"))],
+   str "SECRET", by decide⟩
+
 /-! ### non-vacuity -/
 
 def exFO : Oracles := ⟨fun s => 104 :: s, id, fun _ => none, fun _ => none, fun _ => [], fun _ => none, fun _ => [], fun _ => [], fun _ => []⟩
@@ -260,5 +354,9 @@ example : flat3List [] (filterEncode exFO ((str "request", .rename (str "rq")) :
 example : listStrings (filterEncode exFO [(str "request", .delete)] exEntry) = [str "status"] ∧
     listStrings (filterEncode exFO [(str "request>headers", .replace (str "-"))] exEntry) =
       [str "request", str "uri", str "/x?token=S", str "headers", str "-", str "status"] := by decide
+
+example : noNsList exEntry = true ∧ visList [] exEntry =
+    [(str "request>uri", .str (str "/x?token=S")), (str "request>headers>Cookie", .arr [str "sid=S"]),
+     (str "request>headers>X", .arr [str "1"]), (str "status", .other 0)] := by decide
 
 end CaddyModel.C20
